@@ -53,10 +53,9 @@ theorem lazy_rows {α β : Type} (per : α → List β) (xs : List α) (k : Nat)
 theorem lazy_demand {α β : Type} (per : α → List β) (xs : List α) (k : Nat) (hk1 : 1 ≤ k)
     (hk : k ≤ (xs.flatMap per).length) :
     (M.run per k (M.init xs)).2.pulled = pullsFor per xs k := by
-  have := run_pulled per k (M.init xs) (by simpa [M.init] using hk)
-  simp only [M.init, List.length_nil, Nat.sub_zero, Nat.zero_add] at this
-  show (M.run per k ⟨xs, [], 0⟩).2.pulled = _
-  rw [this, if_neg (by omega)]
+  have h := run_pulled per k (⟨xs, [], 0⟩ : M α β) (by simpa using hk)
+  have hk0 : ¬ k ≤ 0 := by omega
+  simpa [M.init, hk0] using h
 
 /-- … which suffices for `k` rows … -/
 theorem demand_suffices {α β : Type} (per : α → List β) (xs : List α) (k : Nat)
